@@ -280,8 +280,8 @@ bool Instance::eval(const size_t argc, char* const* argv) {
         int64_t n = atoll(v);
         if (n != 0) {
             // verify
-            char buf[vlen + 1];
-            snprintf(buf, vlen + 1, "%" PRId64, n);
+            char buf[24];
+            snprintf(buf, sizeof(buf), "%" PRId64, n);
             if (!strcmp(buf, v)) {
                 // verified; is it > 3 chars and can it be a hexstring too?
                 if (vlen > 3 && !(vlen & 1)) {
